@@ -16,7 +16,7 @@ import (
 )
 
 func init() {
-	for _, op := range []string{"HDConfig", "NewMaster", "Child", "Neuter", "Parse", "NewExt", "SetNet", "Zero", "Reparse"} {
+	for _, op := range []string{"HDConfig", "NewMaster", "Child", "Neuter", "Parse", "NewExt", "SetNet", "Zero", "Reparse", "HDObserve"} {
 		ops[op] = opHD
 	}
 	ops["Wif"] = opWif
@@ -219,6 +219,9 @@ func opHD(h *HState, a Event) Event {
 		h.Obj["hd"] = pl
 	}
 	op := gName(a, "op")
+	if op == "HDObserve" { // the final observation of a history that was executed without looking (DeferredOp)
+		return Event{"op": "HDObserve", "all": pl.all()}
+	}
 	if op == "Reparse" { // Parse(dst, String() of the live key src)
 		op = "Parse"
 		a = with(a, "op", "Parse", "s", []int{})
@@ -229,21 +232,30 @@ func opHD(h *HState, a Event) Event {
 	// calls on ids that are not live (already zeroed / never created) are skipped
 	if op == "Child" || op == "Neuter" || op == "SetNet" || op == "Zero" {
 		if _, ok := pl.keys[gInt(a, "src")]; !ok {
+			if gBool(a, "noobs") {
+				return Event{"op": "HDSkipped", "orig": op}
+			}
 			return Event{"op": "HDSkipped", "orig": op, "all": pl.all()}
 		}
 	}
 	e := with(a, "env", []interface{}{})
 	anet := 1 + (gInt(a, "dst")+gInt(a, "src"))%len(nets)
 	var env []interface{}
+	// quiet: the second execution of a history (DeferredObservation): only the calls themselves are made -- no key is
+	// read (String, ECPubKey, a probe child) before the end, so anything the library computes lazily "on first read"
+	// is computed after the whole history instead of after the step that created the key
+	quiet := gBool(a, "noobs")
 	setResult := func(k *hdkeychain.ExtendedKey, err error) {
 		e["ok"] = err == nil && k != nil
 		e["err"] = hdErr(err)
 		e["obs"] = map[string]interface{}{}
 		if err == nil && k != nil {
 			pl.keys[gInt(a, "dst")] = k
-			o, oe := observeKey(k, anet)
-			e["obs"] = o
-			env = append(env, oe...)
+			if !quiet {
+				o, oe := observeKey(k, anet)
+				e["obs"] = o
+				env = append(env, oe...)
+			}
 		}
 	}
 	p, msg := guard(func() {
@@ -269,12 +281,16 @@ func opHD(h *HState, a Event) Event {
 		case "Child":
 			src := pl.keys[gInt(a, "src")]
 			idx := gW32(a, "idx")
-			env = append(env, envForChild(payloadOf(src), idx)...)
+			if !quiet {
+				env = append(env, envForChild(payloadOf(src), idx)...)
+			}
 			k, err := src.Child(idx)
 			setResult(k, err)
 		case "Neuter":
 			src := pl.keys[gInt(a, "src")]
-			env = append(env, envForKey(payloadOf(src))...)
+			if !quiet {
+				env = append(env, envForKey(payloadOf(src))...)
+			}
 			k, err := src.Neuter()
 			if observeNeuterIdentity { // only C15 states which OBJECT Neuter returns for an already-public key
 				e["same"] = k == src
@@ -296,9 +312,11 @@ func opHD(h *HState, a Event) Event {
 		case "SetNet":
 			k := pl.keys[gInt(a, "src")]
 			k.SetNet(nets[gInt(a, "net")-1])
-			o, oe := observeKey(k, anet)
-			e["obs"] = o
-			env = append(env, oe...)
+			if !quiet {
+				o, oe := observeKey(k, anet)
+				e["obs"] = o
+				env = append(env, oe...)
+			}
 		case "Zero":
 			k := pl.keys[gInt(a, "src")]
 			bufs := hdkeychain.VerifBuffers(k)
@@ -336,7 +354,7 @@ func opHD(h *HState, a Event) Event {
 	if p {
 		e["panic"] = msg
 	}
-	if op != "HDConfig" {
+	if op != "HDConfig" && !quiet {
 		pa, _ := guard(func() { e["all"] = pl.all() })
 		if pa {
 			e["panic"] = "observation of the pool panicked"
